@@ -2131,7 +2131,8 @@ void SVDlapack(matrix *m_, matrix *u, matrix *s, matrix *vt)
   double* work = NULL;
   /* Local arrays */
   double *s_, *u_, *vt_, *a;
-  s_ = xmalloc(sizeof(double)*m_->row);
+  int nsv = (m < n) ? m : n; /* number of singular values: min(rows, columns) */
+  s_ = xmalloc(sizeof(double)*nsv);
   u_ = xmalloc(sizeof(double)*m_->row*m_->row);
   vt_ = xmalloc(sizeof(double)*m_->col*m_->col);
   a = xmalloc(sizeof(double)*m_->row*m_->col);
@@ -2159,15 +2160,15 @@ void SVDlapack(matrix *m_, matrix *u, matrix *s, matrix *vt)
   }
 
   /* s are the eigenvectors singular values diagonal matrix*/
-  ResizeMatrix(s, n, n);
-  for(i = 0; i < m_->col; i++){
+  ResizeMatrix(s, nsv, nsv);
+  for(i = 0; i < nsv; i++){
     s->data[i][i] = s_[i];
   }
   //conv2matrix(1, n, s_, 1, s);
-  /* u is left singular vectors */
-  conv2matrix(m, n, u_, ldu, u);
-  /*vt is the right singular vectors */
-  conv2matrix(m, n, vt_, ldvt, vt);
+  /* u is left singular vectors (rows x min(rows, columns)) */
+  conv2matrix(m, nsv, u_, ldu, u);
+  /*vt is the right singular vectors (min(rows, columns) x columns) */
+  conv2matrix(nsv, n, vt_, ldvt, vt);
   /* Free workspace */
   xfree(work);
   xfree(a);
